@@ -2,9 +2,9 @@
     exponent" (F = G = Z mod r, [ZrCodec]: a group element is ONE pseudo-byte [2^260 + dlog], a
     scalar its real 32 bytes).  Definitions only. *)
 From Coq Require Import ZArith NArith List String Bool.
-From CB Require Import Crypto.Alg Crypto.Transcript Crypto.SigmaGeneric Crypto.SigmaCodec
+From CB Require Import Crypto.Alg Crypto.AlgPairing Crypto.Transcript Crypto.SigmaGeneric Crypto.SigmaCodec
   Crypto.Sigma_dlog Crypto.Sigma_com_eq Crypto.Sigma_com_enc_eq Crypto.Sigma_com_mult Crypto.Sigma_aggregate_dlog
-  Crypto.Sigma_enc_trans Crypto.Sigma_com_lin Crypto.Sigma_com_eq_diff Crypto.Sigma_vcom_eq.
+  Crypto.Sigma_enc_trans Crypto.Sigma_com_lin Crypto.Sigma_com_eq_diff Crypto.Sigma_vcom_eq Crypto.Sigma_com_eq_sig.
 Import ListNotations.
 Local Open Scope Z_scope.
 Local Open Scope bool_scope.
@@ -192,3 +192,26 @@ Definition X_vcom_eq : xproto := {|
      geq (vc_comm s) (Gadd ZrG (msm (M:=ZrG) xis (vc_gis s)) (smul ZrG r (vc_h s)))
      && list_geq (map snd (vc_comms s))
           (map2 (fun (p q : N * Z) => hideZ (vc_gbar s) (vc_hbar s) (nth (N.to_nat (fst p)) xis 0) (snd q)) (vc_comms s) ris) |}.
+
+(** ComEqSig over the pairing "in the exponent" ([e a b = a*b]); G2 elements are tokens 2^261 + dlog, target
+    group elements 2^262 + dlog.  pubs = [n; a_hat; b_hat] ++ cmts(n) ++ [pk.g; pk.g_tilda] ++ ys(l) ++ y_tildas(l)
+    ++ [x_tilda; cmm_g; cmm_h]  (the check prepends n); wit = r' :: (m_i, r_i); resp = z_r' :: (z_m, z_r) *)
+Definition G2_TOKEN : N := 2 ^ 261.
+Definition GT_TOKEN : N := 2 ^ 262.
+Definition ZrCodec2 : CodecOps (PM2 ZrPair) := mkCodecOps ZrF ZrG (fun g => [(G2_TOKEN + Z.to_N g)%N]) ser_scalar_bls 1 32.
+Definition ZrCodecT : CodecOps (PMT ZrPair) := mkCodecOps ZrF ZrG (fun g => [(GT_TOKEN + Z.to_N g)%N]) ser_scalar_bls 1 32.
+Definition ces_pair (l : list Z) : Z * list (Z * Z) := (nz l 0, pairs (tl l)).
+Definition X_com_eq_sig : xproto := {|
+  xp := ces_proto (P:=ZrPair) (MC:=ZrG) ZrCodec ZrCodec2 ZrCodecT ZrCodec;
+  x_stmt := fun p0 => let n := Z.to_nat (nz p0 0) in let p := tl p0 in
+    let l := Nat.div (List.length p - 7 - n) 2 in
+    @mkCes ZrF ZrPair ZrG (nz p 0) (nz p 1) (firstn n (skipn 2 p)) (nz p (2 + n)) (nz p (3 + n))
+           (firstn l (skipn (4 + n) p)) (firstn l (skipn (4 + n + l) p)) (nz p (4 + n + 2 * l))
+           (nz p (5 + n + 2 * l)) (nz p (6 + n + 2 * l));
+  x_wit := ces_pair; x_resp := ces_pair;
+  x_recover := fun s w c z => ces_recover s w c z;
+  x_relb := fun s w => let '(r', vals) := w in
+     Nat.eqb (List.length vals) (List.length (cs_cmts s))
+     && list_geq (cs_cmts s) (map (fun v => hideZ (cs_g s) (cs_h s) (fst v) (snd v)) vals)
+     && geq (fmul (cs_b s) (cs_gt s))
+            (fmul (cs_a s) (fadd (cs_xt s) (fadd (msm (M:=ZrG) (map fst vals) (cs_yts s)) (fmul r' (cs_gt s))))) |}.
